@@ -290,7 +290,7 @@ macro_rules! stream_total {
             let mut ok = true;
             split_on!(n, 0, NMAX, n_ => {
                 let mut core = $core(c.clone(), blk::<$bs>(&iv));
-                core.set_block_pos(pos);
+                core.set_block_pos(pos as _);
                 let _ = core.remaining_blocks();
                 let mut s = StreamCipherCoreWrapper::from_core(core);
                 ok = s.try_apply_keystream(&mut buf[..n_]).is_ok();
